@@ -44,12 +44,25 @@ pub struct Case {
 }
 
 pub fn strategy() -> impl Strategy<Value = Case> {
-    (0u8..7, 0u8..3, proptest::collection::vec((gen::game_strategy(20), 0u8..8, 0u8..12, 0u8..6), 1..=3)).prop_map(|(window, sleep, rounds)| Case { window, sleep, rounds })
+    (0u8..7, 0u8..8, proptest::collection::vec((gen::game_strategy(20), 0u8..8, 0u8..12, 0u8..6), 1..=3)).prop_map(|(window, sleep, rounds)| Case { window, sleep, rounds })
 }
+
+/// Positions whose search may take a shortcut (forced move, dead draw, clock run out, repetition).
+pub const FAST_EXIT: [(&str, &str); 8] = [
+    ("7k/8/8/8/8/8/6PP/q5K1 w - - 0 1", ""),
+    ("Q5k1/6pp/8/8/8/8/8/7K b - - 0 1", ""),
+    ("8/8/8/3k4/8/3K4/8/8 w - - 0 1", ""),
+    ("7k/8/8/8/8/8/R7/K7 b - - 100 80", ""),
+    ("7k/8/8/8/8/8/R7/K7 w - - 99 80", ""),
+    ("rnbqkbnr/pppppppp/8/8/8/8/PPPPPPPP/RNBQKBNR w KQkq - 0 1", "g1f3 g8f6 f3g1 f6g8 g1f3 g8f6 f3g1 f6g8"),
+    ("6k1/5ppp/8/8/8/8/5PP1/r5K1 w - - 0 1", ""),
+    ("3k3R/8/4K3/8/8/8/8/8 b - - 0 1", ""),
+];
 
 pub fn build(c: &Case, corp: &corpus::Corpus) -> Option<Sched> {
     let window = LABELS[c.window as usize % 6].to_string(); // uci:done is trace-only
-    let sleep_ms = [50u64, 150, 300][c.sleep as usize % 3];
+    // mostly short windows; now and then one that outlasts any bounded wait the engine may use
+    let sleep_ms = [50u64, 150, 300, 50, 150, 300, 800, 1500][c.sleep as usize % 8];
     let mut rounds = vec![];
     for (g, go_sel, trig_sel, act_sel) in &c.rounds {
         let mix = gen::StartMix { startpos: 4, corpus: 5, synth: 2, pattern: 3 };
@@ -65,6 +78,23 @@ pub fn build(c: &Case, corp: &corpus::Corpus) -> Option<Sched> {
         // mostly positions with a legal move; a finished game (mate / stalemate) now and then:
         // its go must still get exactly one bestmove line (content not judged) and must not
         // disturb the following round
+        // searches that may end through a shortcut: a single legal move, a bare-kings draw, a
+        // fifty-move clock that has run out, a position repeated in the game
+        if (*go_sel as usize * 5 + *trig_sel as usize * 3 + *act_sel as usize) % 6 == 0 {
+            let k = (*go_sel as usize + *trig_sel as usize + g.choices.len()) % FAST_EXIT.len();
+            let (fen, moves) = FAST_EXIT[k];
+            if let Ok(p) = Pos::from_fen(fen) {
+                let mut g2 = Game::new(p);
+                for u in moves.split_whitespace() {
+                    if let Some(m) = g2.cur.find_legal(u) {
+                        g2.play(m);
+                    }
+                }
+                if !g2.cur.legal_moves().is_empty() {
+                    game = g2;
+                }
+            }
+        }
         let keep_terminal = (*go_sel as usize + *act_sel as usize) % 4 == 0;
         if !keep_terminal {
             while game.cur.legal_moves().is_empty() && !game.moves.is_empty() {
@@ -398,6 +428,30 @@ pub fn fixed_schedules() -> Vec<Sched> {
         Sched { window: "uci:spawned".into(), sleep_ms: 150, rounds: vec![rd("go infinite", "label:uci:spawned", "stop")] },
         // a second go while searching, then stop; the next conformant go must be accepted
         Sched { window: "search:iter1".into(), sleep_ms: 50, rounds: vec![rd("go infinite", "label:search:iter1", "go"), rd("go depth 2", "none", "none")] },
+        // a forced move (one legal move) answered, the next go right after its bestmove while the
+        // search thread is held before it exits; the same with a bare-kings draw
+        Sched {
+            window: "search:post_best".into(),
+            sleep_ms: 400,
+            rounds: vec![
+                Round { position: "position fen 7k/8/8/8/8/8/6PP/q5K1 w - - 0 1".into(), fen: "7k/8/8/8/8/8/6PP/q5K1 w - - 0 1".into(), go: "go depth 3".into(), trigger: "bestmove".into(), action: "none".into() },
+                Round { position: "position fen 7k/8/8/8/8/8/6PP/q5K1 w - - 0 1".into(), fen: "7k/8/8/8/8/8/6PP/q5K1 w - - 0 1".into(), go: "go depth 3".into(), trigger: "bestmove".into(), action: "none".into() },
+                rd("go depth 2", "none", "none"),
+            ],
+        },
+        Sched {
+            window: "search:post_best".into(),
+            sleep_ms: 400,
+            rounds: vec![
+                Round { position: "position fen 8/8/8/3k4/8/3K4/8/8 w - - 0 1".into(), fen: "8/8/8/3k4/8/3K4/8/8 w - - 0 1".into(), go: "go depth 4".into(), trigger: "bestmove".into(), action: "none".into() },
+                rd("go depth 2", "bestmove", "none"),
+                rd("go depth 2", "none", "none"),
+            ],
+        },
+        // windows that outlast any bounded wait: the search thread is held 1.5 s after / before its
+        // bestmove line while the next go arrives
+        Sched { window: "search:post_best".into(), sleep_ms: 1500, rounds: vec![rd("go depth 2", "bestmove", "none"), rd("go depth 2", "bestmove", "none"), rd("go depth 2", "none", "none")] },
+        Sched { window: "search:pre_best".into(), sleep_ms: 1500, rounds: vec![rd("go infinite", "delay:50", "stop"), rd("go depth 2", "none", "none")] },
         // a finished game (fool's mate) answered, next go right after its bestmove
         Sched {
             window: "search:post_best".into(),
